@@ -268,11 +268,11 @@ from . import c04 as _c04  # noqa: E402
 RACE = Harness(
     prop="C18",
     name="G-race",
-    fn=guard(lambda a, tier: _c04._race(a, tier, None, "C18")),
-    params=_c04.race_params,
-    cube=_c04.RACE.cube,
+    fn=guard(lambda a, tier: _c04._race(a, "quick", None, "C18")),  # both tiers use the quick bound (C04's thorough tier explores the deeper one)
+    params=lambda tier: _c04.race_params("quick"),
+    cube=lambda tier: _c04.RACE.cube("quick"),
     title="lookups of one (multi-type) async factory racing from several tasks: ONE generation event",
-    bound_text=_c04.RACE.bound_text,
+    bound_text=lambda tier: _c04.RACE.bound_text("quick"),
     oracle="exactly one ResourceEvent(is_factory=False) with the factory's types and name is dispatched on the context for the generation, under every "
     "explored interleaving - also when the first attempt raised or its requester was cancelled (the failed attempt announces nothing)",
     outside=_c04.RACE.outside,
